@@ -23,6 +23,13 @@ def run(ck):
         items.append((c.T, bytes(k2), f, {"case": c, "cls": "last-byte-differs"}))
         items.append((c.T, bytes(16), f, {"case": c, "cls": "zero-key"}))
         items.append((c.T, c.key, f, {"case": c, "cls": "right-key"}))
+    # bulk stream: an acceptance rule that lets a wrong key through with probability 2^-8 (e.g. a tag comparison that
+    # sums byte differences in a u8) needs well over a thousand wrong-key trials to show up; smallest files, all 3 hashes
+    small = sorted(files, key=lambda cf: len(cf[1]))
+    bulk = [next((cf for cf in small if cf[0].hm == hm), small[0]) for hm in range(3)]
+    for j in range(6000 if big else 1800):
+        c, f = bulk[j % 3]
+        items.append((c.T, rnd_bytes(r, 16), f, {"case": c, "cls": "bulk-random-key"}))
     res = run_inputs(ck, exe, env, items)
     dist = ck.cov.setdefault("case_classes", {})
     distinct, corr, last = set(), 0, None
@@ -56,5 +63,5 @@ def run(ck):
     if corr and not ck.violations:
         last["broken"] = "correspondence dec/ver model vs implementation under wrong keys"
         ck.violation("correspondence model/implementation no longer checks on %d inputs, no property violation found" % corr, last, found_input=False)
-    return finish_proof(ck, rule="%d files x (single-bit neighbours of the key: all 128 in the thorough tier, 16 incl. bits 0,7,8,63,64,120,127 in quick; 3 random keys; key differing only in byte 15; zero key; the right key) through verify and decrypt; output size and write count after a failure must be 0. distinct = distinct (key, n, cmode, hmode, T)" % len(files),
+    return finish_proof(ck, rule="%d files x (single-bit neighbours of the key: all 128 in the thorough tier, 16 incl. bits 0,7,8,63,64,120,127 in quick; 3 random keys; 1800 (thorough 6000) random keys on the three smallest files; key differing only in byte 15; zero key; the right key) through verify and decrypt; output size and write count after a failure must be 0. distinct = distinct (key, n, cmode, hmode, T)" % len(files),
                         assumptions=["acceptance of a wrong key = HMAC tag collision between two keys (explicit event in the theorem; negligible under the PRF assumption)"])
